@@ -27,8 +27,16 @@ InitRunMode ==
   /\ gerrs = 0
   /\ dot = <<>> /\ tmKnown = {} /\ tmErrs = 0
 
+InitContMode ==   \* a first graph on a proper subset of the tasks
+  /\ \E V \in (SUBSET Tasks) \ {Tasks} : \E E \in SUBSET {e \in DownEdges : e[1] \in V /\ e[2] \in V} :
+        /\ verts = V
+        /\ deps = [t \in Tasks |-> {e[2] : e \in {x \in E : x[1] = t}}]
+  /\ retries = [t \in Tasks |-> 0]
+  /\ gerrs = 0
+  /\ dot = <<>> /\ tmKnown = {} /\ tmErrs = 0
+
 Init ==
-  /\ IF Mode = "run" THEN InitRunMode ELSE EmptyGraph
+  /\ IF Mode = "run" THEN InitRunMode ELSE IF Mode = "cont" THEN InitContMode ELSE EmptyGraph
   /\ limit \in Limits /\ serial \in Serials /\ buffered \in Buffereds
   /\ phase = "build" /\ hist = 0
   /\ RunInit
@@ -55,7 +63,17 @@ RunStep ==
   \/ WithCancel /\ Cancel
   \/ WithEnvLock /\ \E v \in Tasks : EnvLock(v) \/ EnvUnlock(v)
 
-Next == Build \/ (RunStep /\ UNCHANGED hist)
+\* Mode "cont": after a Run that returned nil the program adds the tasks not yet in the graph (with dependencies on
+\* anything), possibly changes the limit, and runs the graph again
+Cont ==
+  /\ Mode = "cont"
+  /\ \/ Continue /\ UNCHANGED hist
+     \/ /\ att # [t \in Tasks |-> 0] /\ hist < MaxHist /\ hist' = hist + 1   \* building again after a run
+        /\ \/ \E t \in Tasks \ verts : AddTask(t)
+           \/ \E t \in Tasks : \E d \in Tasks : status[t] = "pending" /\ DependsOn(t, d)
+           \/ \E n \in Limits : n # limit /\ SetLimit(n)
+
+Next == Build \/ Cont \/ (RunStep /\ UNCHANGED hist)
 
 Fairness ==
   /\ WF_mcvars(StartRun /\ UNCHANGED hist)
